@@ -18,6 +18,31 @@ B33t == <<12, 0, 0,
           0,  0, 0,
           2,  0, 6>>          \* 3x3, centre trap
 RootsOf(bs) == {ParsedState(b, s, 2) : b \in bs, s \in {Gold, Silver}}
+\* 3x3 with centre trap (square 5): elephant+cat vs camel+rabbit, rabbit vs rabbit etc.
+B33a == <<12, 0, 0,
+          0,  0, 7,
+          2,  0, 6>>
+B33b == <<0, 11, 0,
+          7,  0, 1,
+          0,  5, 0>>
+B33c == <<9,  0, 8,
+          0,  0, 0,
+          3,  0, 4>>
+\* 4x3 with traps at 6 and 7
+B43a == <<12, 0, 0, 7,
+          0,  0, 0, 0,
+          1,  2, 0, 6>>
+B43b == <<0, 10, 8, 0,
+          0,  0, 0, 0,
+          0,  3, 5, 0>>
+\* 4x4 with traps at 6 and 11
+B44a == <<0, 12, 7, 0,
+          0,  0, 0, 0,
+          0,  0, 0, 0,
+          1,  6, 2, 0>>
+Roots33a == RootsOf({B33a, B33b, B33c})
+Roots43 == RootsOf({B43a, B43b})
+Roots44 == RootsOf({B44a})
 Roots22 == RootsOf({B22a, B22b})
 Roots32 == RootsOf({B32a})
 Roots32r == RootsOf({B32r})
